@@ -186,12 +186,12 @@ theorem refv_err (e1 e2 : DecErr) : RefV (.err e1) (.err e2) :=
 
 /-- a scalar array in a view: the size checks of the parser and the lenient getter together are the reference -/
 theorem array_refv (c : Cfg) (all rest : Items) (id : String) (w' w : Nat) (shape : Shape) (bs : Bytes) (st : DState)
-    (hb : bs.length < usizeMax) (hw : w = w' / 8) (hpos : 0 < w)
+    (hb : bs.length < usizeMax) (hw : w = w' / 8) (hpos : 0 < w) (hall : ModFree all) (hid : id ≠ "_payload_")
     (hcw : shape = .countField → ∃ cc, countWidth id all = some cc ∧ cc ≤ 16 ∧ w * 65535 < 2 ^ 31) :
     RefV (viewItem c all rest (.array id (.scalar w') (.static w) shape none) bs (st, none))
       (Pdlv.decItem (ideal c) (.array id (.scalar w') (.static w) shape none) bs st) := by
   subst hw
-  simp only [viewItem, Pdlv.decItem, afterPad, withPad, ideal, decTy_scalar]
+  simp only [viewItem, Pdlv.decItem, afterPad, withPad, ideal, decTy_scalar, subModifier_id all hall id hid]
   cases shape with
   | static n =>
     have hk : arrayKeysOk (.static (w' / 8)) (.static n) (st.ctx.get (.count id)) (st.ctx.get (.size id)) (st.ctx.get (.esize id)) = true := rfl
@@ -278,27 +278,27 @@ theorem array_refv (c : Cfg) (all rest : Items) (id : String) (w' w : Nat) (shap
 
 /-! ### fields, field lists, views -/
 
-theorem item_refv (c : Cfg) (all rest : Items) : ∀ (i : Item), vwfItem all rest i = true → ∀ (bs : Bytes) (st : DState),
+theorem item_refv (c : Cfg) (all rest : Items) (hall : ModFree all) : ∀ (i : Item), vwfItem all rest i = true → ∀ (bs : Bytes) (st : DState),
     bs.length < usizeMax → RefV (viewItem c all rest i bs (st, none)) (Pdlv.decItem (ideal c) i bs st)
   | .chunk fs, hw, bs, st, hb => by
     simp only [vwfItem] at hw
     simp only [viewItem]
-    exact RefV.of_refines (item_ref c all rest (.chunk fs) hw bs st hb)
+    exact RefV.of_refines (item_ref c all rest hall (.chunk fs) hw bs st hb)
   | .typedef id ty sb, hw, bs, st, hb => by
     simp only [vwfItem] at hw
     simp only [viewItem]
-    exact RefV.of_refines (item_ref c all rest (.typedef id ty sb) hw bs st hb)
+    exact RefV.of_refines (item_ref c all rest hall (.typedef id ty sb) hw bs st hb)
   | .optional id ty cid cval, hw, bs, st, hb => by
     simp only [vwfItem] at hw
     simp only [viewItem]
-    exact RefV.of_refines (item_ref c all rest (.optional id ty cid cval) hw bs st hb)
+    exact RefV.of_refines (item_ref c all rest hall (.optional id ty cid cval) hw bs st hb)
   | .payload mode, hw, bs, st, hb => by
     simp only [vwfItem] at hw
     simp only [viewItem]
-    exact RefV.of_refines (item_ref c all rest (.payload mode) hw bs st hb)
+    exact RefV.of_refines (item_ref c all rest hall (.payload mode) hw bs st hb)
   | .array id elem ew shape pad, hw, bs, st, hb => by
-    simp only [vwfItem, Bool.and_eq_true, Option.isNone_iff_eq_none] at hw
-    obtain ⟨hpad, hel⟩ := hw
+    simp only [vwfItem, Bool.and_eq_true, Option.isNone_iff_eq_none, bne_iff_ne, ne_eq] at hw
+    obtain ⟨⟨hpad, hidp⟩, hel⟩ := hw
     subst hpad
     cases elem with
     | scalar w' =>
@@ -306,7 +306,7 @@ theorem item_refv (c : Cfg) (all rest : Items) : ∀ (i : Item), vwfItem all res
       | static w =>
         simp only [Bool.and_eq_true, beq_iff_eq, decide_eq_true_eq] at hel
         obtain ⟨⟨hw, hpos⟩, hcnt⟩ := hel
-        refine array_refv c all rest id w' w shape bs st hb hw hpos ?_
+        refine array_refv c all rest id w' w shape bs st hb hw hpos hall hidp ?_
         intro hs
         subst hs
         simp only [countOk] at hcnt
@@ -322,7 +322,7 @@ theorem item_refv (c : Cfg) (all rest : Items) : ∀ (i : Item), vwfItem all res
     | struct nm b => simp at hel
 
 /-- the class of views is inside the class of struct parsers, field by field (arrays apart) -/
-theorem items_refv (c : Cfg) (all : Items) : ∀ (is : Items), vwfItems all is = true → ∀ (inRun : Bool) (bs : Bytes) (st : DState),
+theorem items_refv (c : Cfg) (all : Items) (hall : ModFree all) : ∀ (is : Items), vwfItems all is = true → ∀ (inRun : Bool) (bs : Bytes) (st : DState),
     bs.length < usizeMax → RefV (viewItems c all is inRun bs (st, none)) (Pdlv.decItems (ideal c) is bs st)
   | .nil, _, _, bs, st, _ => refv_ok st bs
   | .cons i r, hw, inRun, bs, st, hb => by
@@ -332,9 +332,9 @@ theorem items_refv (c : Cfg) (all : Items) : ∀ (is : Items), vwfItems all is =
         (Pdlv.decItems (ideal c) (.cons i r) bs st) := by
       intro b
       simp only [Pdlv.decItems]
-      refine RefV.bind (item_refv c all r i hw.1 bs st hb) (fun st1 r1 hx => ?_)
+      refine RefV.bind (item_refv c all r hall i hw.1 bs st hb) (fun st1 r1 hx => ?_)
       have := decItem_consumes (ideal c) i bs st st1 r1 hx
-      exact items_refv c all r hw.2 b r1 st1 (by omega)
+      exact items_refv c all hall r hw.2 b r1 st1 (by omega)
     cases hr : runLen i with
     | none => exact step false
     | some n =>
@@ -348,12 +348,36 @@ theorem items_refv (c : Cfg) (all : Items) : ∀ (is : Items), vwfItems all is =
         omega
       · exact step true
 
+theorem sizeField_vwf (all : Items) (id : String) :
+    ∀ (is : Items), vwfItems all is = true → ∀ w m, sizeField id is = some (w, m) → id = "_payload_" ∨ m = 0
+  | .nil, _, w, m, h => by simp [sizeField] at h
+  | .cons i r, hw, w, m, h => by
+    simp only [vwfItems, Bool.and_eq_true] at hw
+    have hr := sizeField_vwf all id r hw.2
+    cases i with
+    | chunk fs =>
+      simp only [sizeField] at h
+      cases hin : sizeFieldIn id fs with
+      | some x =>
+        rw [hin] at h
+        simp only [Option.some_or, Option.some.injEq] at h
+        subst h
+        exact sizeFieldIn_plain id fs (by simpa [vwfItem, wfItem] using hw.1) w m hin
+      | none =>
+        rw [hin] at h
+        simp only [Option.none_or] at h
+        exact hr w m h
+    | typedef a b c' => exact hr w m (by simpa [sizeField] using h)
+    | optional a b c' d => exact hr w m (by simpa [sizeField] using h)
+    | payload md => exact hr w m (by simpa [sizeField] using h)
+    | array a b c' d e => exact hr w m (by simpa [sizeField] using h)
+
 /-- the view parser and the getters the C++ back end emits refine the reference `decode_full` on `Cxx.vwfBody` -/
 theorem view_refines_reference (c : Cfg) (nm : String) (items : Items) (hw : vwfBody (.root nm items) = true)
     (bs : Bytes) (hb : bs.length < usizeMax) :
     Refines (viewDecode c (.root nm items) bs) (Pdlv.decodeFull (ideal c) (.root nm items) bs) := by
   simp only [vwfBody] at hw
-  have h := items_refv c items items hw false bs DState.empty hb
+  have h := items_refv c items (sizeField_vwf items · items hw) items hw false bs DState.empty hb
   simp only [viewDecode, Pdlv.decodeFull, Pdlv.decBody]
   constructor
   · intro v
